@@ -5,3 +5,7 @@ import "testing"
 func TestC09_Algebra(t *testing.T) {
 	checkRapid(t, "C09", "TestC09_Algebra", ruleC09, drawC09)
 }
+
+func TestC09_SharedFilter(t *testing.T) {
+	checkRapid(t, "C09", "TestC09_SharedFilter", ruleC09Shared, drawC09Shared)
+}
